@@ -15,7 +15,10 @@
     increasing index order (so the layer is listed with decreasing indices),
   * `Circuit.decomposition`: `U ← U⁻¹` if `inverse_h`, `U ← np.flip(U)` if `inverse_v`, the circuit is the
     list added in order (merged), then `C.inverse(v, h)` (list reversed for `h`, ranges mirrored for `v`,
-    every component inverted).
+    every component inverted),
+  * the retry loop `while count < max_try` of `Circuit.decomposition`: the attempts share one array object;
+    what an attempt leaves in it is a parameter (`retry`), instantiated for the repaired code (a private copy per
+    attempt: nothing) and for the pinned code (`inPlace`: the `u[n,j] = 0` writes of the leading identity skips).
 
   What is an oracle: the numerical solver (`solve`/`scipy.optimize`).  It is a list of results
   `(B, Binv)` consumed one per solved cell — `B` the matrix of the instantiated block, `Binv` the
@@ -193,14 +196,19 @@ def decomposeTriangle [CommRing R] (cfg : Cfg R) {m : ℕ} (U : Matrix (Fin m) (
 
 /-! ### the retry loop of `Circuit.decomposition` (`while count < max_try`)
 
-Every attempt is handed the SAME array object `U`.  `decompose_triangle` works on it in place until it first
-rebinds its local name (`u = RI @ u`: PERM substitution or solved block, a fresh array); a failed `solve`
-returns before anything is written for its cell.  What an attempt leaves in the shared array is therefore
-`u[n, j] = 0` for the maximal prefix of cells that took the identity-skip branch (`leadingSkipsV`) — entries
-the threshold test called negligible.  Nothing else of an abandoned attempt (its partially reduced matrix,
-its component list) may reach the next one. -/
+Every attempt is handed the SAME array object `U`.  What an attempt leaves in that array is `leave`:
 
-/-- the in-place writes of one attempt on the array shared by all attempts -/
+* repaired code (`fixes/C12-input-mutated.diff`, the main model): `decompose_triangle` starts with `u = u.copy()`,
+  nothing is ever written into the shared array — `leave = id` (`decompositionRetry`);
+* pinned code (kept as `decompositionRetryInPlace`, the witness of the old behaviour): `decompose_triangle` worked on
+  the caller's array until it first rebound its local name (`u = RI @ u`: PERM substitution or solved block, a
+  fresh array; a failed `solve` returns before anything is written for its cell), so an attempt left
+  `u[n, j] = 0` for the maximal prefix of cells that took the identity-skip branch (`inPlace`) — in the array of
+  the CALLER, who afterwards holds a matrix that is no longer unitary to `Matrix.is_unitary`'s tolerance.
+
+Nothing else of an abandoned attempt (its partially reduced matrix, its component list) may reach the next one. -/
+
+/-- pinned code: the in-place writes of one attempt on the array shared by all attempts -/
 def leadingSkipsV [Zero R] (cfg : Cfg R) {m : ℕ} : MatV R m m → List (ℕ × ℕ) → MatV R m m
   | M, [] => M
   | M, c :: cs =>
@@ -208,13 +216,13 @@ def leadingSkipsV [Zero R] (cfg : Cfg R) {m : ℕ} : MatV R m m → List (ℕ ×
       leadingSkipsV cfg (MatV.ofMatrix (zeroAt M.toMatrix c.2 c.1)) cs
     else M
 
-/-- the shared array after one attempt (whether it failed or not) -/
+/-- pinned code: the shared array (= the caller's matrix) after one attempt, whether it failed or not -/
 def inPlace [Zero R] (cfg : Cfg R) {m : ℕ} (U : Matrix (Fin m) (Fin m) R) : Matrix (Fin m) (Fin m) R :=
   (leadingSkipsV cfg (MatV.ofMatrix U) (cells m)).toMatrix
 
 /-- `while count < max_try: lc = decompose_triangle(U, …); if lc is not None: return …; count += 1`.
 One list of solver results per attempt (`attempts.length = max_try`); `leave V` is what an attempt started on
-`V` leaves in the shared array (the code: `inPlace cfg`). -/
+`V` leaves in the shared array. -/
 def retry [CommRing R] (cfg : Cfg R) {m : ℕ}
     (leave : Matrix (Fin m) (Fin m) R → Matrix (Fin m) (Fin m) R) :
     Matrix (Fin m) (Fin m) R → List (List (Sol R)) → Option (St R m)
@@ -224,8 +232,13 @@ def retry [CommRing R] (cfg : Cfg R) {m : ℕ}
     | some st => some st
     | none => retry cfg leave (leave U) rest
 
-/-- the retry loop of the code as it is -/
+/-- the retry loop (repaired code: every attempt works on its own copy) -/
 def decompositionRetry [CommRing R] (cfg : Cfg R) {m : ℕ} (U : Matrix (Fin m) (Fin m) R)
+    (attempts : List (List (Sol R))) : Option (St R m) :=
+  retry cfg id U attempts
+
+/-- the retry loop of the pinned code (attempts write into the shared array) -/
+def decompositionRetryInPlace [CommRing R] (cfg : Cfg R) {m : ℕ} (U : Matrix (Fin m) (Fin m) R)
     (attempts : List (List (Sol R))) : Option (St R m) :=
   retry cfg (inPlace cfg) U attempts
 
